@@ -15,7 +15,8 @@ RULE = ("Hypothesis draws training sets (m up to 40, every slice covered as the 
         "whose ONLY sample sits at a chosen position p in {0, m//2, m-1}), initial tensors with ragged ranks, lamb in 10^[-6,1], sweep counts "
         "and splittings a+b, permutations; objective J = sum_s w_s (T[i_s]-y_s)^2 + lamb sum_k ||G_k||^2 recomputed from a dense reference. "
         "Adaptive mode: d>=3, ranks(Y0)<=r. als_func: points in the box, n 2..5, thr_pow=0. "
-        "Non-trivial = single-sample slice, duplicates or weights present, and some rank >= 2; distinct by SHA-1 of the case.")
+        "Non-trivial = single-sample slice, duplicates or weights present, and some rank >= 2; distinct by SHA-1 of the case."
+        " The regularisation number is also handed over as 0-d array / np.float64 / (where exact) np.float32 / np.float16 / NumPy integer: bit-identical result required (als and als_func).")
 TOLERANCES = ("J_{t+1} <= J_t (1+1e-9) + 1e-12 (J_0+1); ridge gradient of the last updated core <= 1e-8 * scale; restart and permutation: relative "
               "difference <= 1e-6 * max(1, (1e-3/lamb)^2)")
 ASSUMPTIONS = ["lamb > 0 (unique ridge minimiser per core)", "weights non-negative (exact zeros included)", "d >= 2 (adaptive d >= 3)",
